@@ -16,6 +16,8 @@ pub struct Module {
     /// `<name>.only-own` exists: run under the module's own configuration only (modules that are
     /// expensive because they document a known finding)
     pub only_own: bool,
+    /// this entry is the module handed to the pass as a Script
+    pub as_script: bool,
 }
 
 pub fn opt_sets(m: &Module) -> Vec<(String, String)> {
@@ -108,7 +110,7 @@ pub fn discover(workload_dir: &str) -> Vec<Module> {
             let Ok(src) = std::fs::read_to_string(&p) else { continue };
             let own = std::fs::read_to_string(p.with_file_name("config.json")).ok();
             let rel = p.strip_prefix(FIXTURE_DIR).unwrap().to_string_lossy().to_string();
-            mods.push(Module { name: format!("fixture/{rel}"), src, ts: fname.ends_with(".tsx"), own, only_own: false });
+            mods.push(Module { name: format!("fixture/{rel}"), src, ts: fname.ends_with(".tsx"), own, only_own: false, as_script: false });
         }
     }
     // W2
@@ -121,9 +123,21 @@ pub fn discover(workload_dir: &str) -> Vec<Module> {
             let own = std::fs::read_to_string(p.with_extension("json")).ok();
             let rel = p.strip_prefix(workload_dir).unwrap().to_string_lossy().to_string();
             let only_own = p.with_extension("only-own").exists();
-            mods.push(Module { name: format!("w2/{rel}"), src, ts: ext == "tsx", own, only_own });
+            mods.push(Module { name: format!("w2/{rel}"), src, ts: ext == "tsx", own, only_own, as_script: false });
         }
     }
+    // the same sources as Scripts, where that is possible (no import / export at statement level)
+    let mut scripts = vec![];
+    for m in &mods {
+        let modular = m.src.lines().any(|l| {
+            let t = l.trim_start();
+            t.starts_with("import ") || t.starts_with("import{") || t.starts_with("import*") || t.starts_with("export ") || t.starts_with("export{") || t.starts_with("export*")
+        });
+        if !modular && !m.only_own {
+            scripts.push(Module { name: format!("{}#script", m.name), src: m.src.clone(), ts: m.ts, own: m.own.clone(), only_own: false, as_script: true });
+        }
+    }
+    mods.extend(scripts);
     mods
 }
 
@@ -132,7 +146,13 @@ pub fn tasks(mods: &[Module]) -> Vec<PlanTask> {
     let mut out = vec![];
     for m in mods {
         for (on, oj) in opt_sets(m) {
+            if m.as_script && on != "own" && on != "all" {
+                continue;
+            }
             for comments in [true, false] {
+                if m.as_script && !comments {
+                    continue;
+                }
                 out.push(PlanTask {
                     name: m.name.clone(),
                     opt_name: on.clone(),
@@ -140,6 +160,7 @@ pub fn tasks(mods: &[Module]) -> Vec<PlanTask> {
                     ts: m.ts,
                     options: oj.clone(),
                     comments,
+                    script: m.as_script,
                     crash_at: None,
                     emitter_crash_at: None,
                     noise: Default::default(),
